@@ -47,6 +47,9 @@ def run(rep, tier, seed):
                          n_conc=2, sample=1500, cap=2500)
             chk.generate('gen2', gen_consts(1, InOpts=IN_OPTS[:3] + IN_OPTS[4:5], InCalls=[('ia1', 1), ('ia5', 1)]),
                          cassettes=('memory',), n_conc=2, sample=2500, cap=4000)
+            chk.generate('gen3runs', gen_consts(1, MaxPSteps=2, InOpts=IN_OPTS[:1], InCalls=[('ia1', 1), ('ia1', 2)],
+                                                Toggles=0, StartEnabled=[True], Ctl=[], PlayFaults=[]),
+                         cassettes=('memory',), n_conc=1, sample=3000, cap=5000)
             chk.generate('genv', gen_consts(1, InOpts=IN_OPTS_NOFB, InCalls=[('ia2', 1), ('ia3', 0), ('ia4', 2)],
                                             OutAliases=['oa2'], MaxRuns=2, Toggles=0, StartEnabled=[True], Ctl=[]),
                          cassettes=('memory',), n_conc=2, sample=1500, cap=2500)
